@@ -44,3 +44,12 @@ add("C02", "exit-edge analysis of every test loop (only ctx.Exit-guarded early e
 add("C04", "exhaustive decision-path enumeration of the six absence-handling sites with role-classified branch atoms; binding of the parse/validate absence predicates and their canonical formulas; presence-guard rule on provider map lookups",
     "Decides the decision shape default > required > optional at every site and in both modes, which predicate each mode uses and on what, the predicates' formulas, and that a missing map key is nil at the provider boundary. strings.TrimSpace's notion of blank is library semantics; level 'other'.",
     "DESIGN.md section 4, C04")
+add("C10", "shape rules on ErrsMap.Add (guarded $first, exactly-one keyed append, $root rewrite), who-may-call for the path-keyed sink, value-flow of the pushed path segment, canonical return-path table of GetKeyFromField, constant-tag table of the front ends, last-write rule for IssuePath, key/index agreement of the sanitizers",
+    "Decides that every issue is filed exactly once under its own path (or $root), $first once, that path segments are the keys/indices actually used for lookup, the tag priority, each front end's tag, IssuePath override and sanitizer agreement. The nested-tag clause is a recorded known finding (F17). PathBuilder's string rendering is value-level; level 'other'.",
+    "DESIGN.md section 4, C10")
+add("C14", "sibling cross-check of all GetByField implementations, path-sensitive typestate of a consumed DpFactory (every path from the factory call to a child dispatch overwrites the child's Data), decision-path comparison of the two factory handlers, reachability of GetNestedProvider",
+    "Decides only the structural part of front-end equivalence: identical field resolution in every provider, a decoding factory is consumed once, both factory handlers follow the same protocol. Nested-provider derivation is a recorded known finding (F17). Equality of results across renderings of one record is not decided; level 'other'.",
+    "DESIGN.md section 4, C14")
+add("C15", "decision-table extraction of zhttp.Request from SSA paths compared with the documented table; return-path classification of the decoding closures; decision-path rule for factory errors; presence-guard rule on url.Values lookups; nil-flow analysis of DataProvider values into invoke sites",
+    "Decides the source-selection table, that undecodable bodies yield exactly one documented issue with no schema run and no destination write, list/scalar/absent presentation of parameters, and that {} cannot produce a nil provider dereference. Media-type normalisation beyond cutting parameters is not claimed; level 'other'.",
+    "DESIGN.md section 4, C15")
